@@ -1,7 +1,7 @@
 #!/bin/sh
 # tools/try_seed.sh <dir with patch.diff and demo.py> <property id> [more property ids...]
 # confirms the seeded change (demo passes without it, fails with it, repo suite unchanged) and runs the named quick checks against it
-d="$1"; shift
+d="$1"; shift; case "$d" in /*) ;; *) d="/verif/$d";; esac
 cd /repo || exit 2
 git diff --quiet || { echo "/repo is not clean"; exit 2; }
 echo "== demo on the unchanged tree"; PYTHONPATH=/repo/src MPLBACKEND=Agg /venv/bin/python "$d/demo.py" >/dev/null 2>&1; echo "exit=$?"
